@@ -1202,9 +1202,10 @@ func (fr *Frame) evalInvariant(inv *Clause, lp *Loop, st *State, phiOverride map
 	env.lookup = func(name string) (SV, bool) { return fr.resolveLocal(name, lp, st, phiOverride) }
 	var t *Term
 	if err := safeEval(func() { t = env.Bool(inv.Expr) }); err != nil {
-		panic(stopExec{fmt.Sprintf("%s: loop %d invariant %q: %v", shortFuncName(fr.fn), lp.Ordinal, inv.Src, err)})
+		// the clause no longer fits the code (e.g. a local it names is gone): drop it, remember it
+		x.noteStale(fmt.Sprintf("%s: loop %d invariant %q: %v", shortFuncName(fr.fn), lp.Ordinal, inv.Src, err))
+		return x.B.True()
 	}
-	_ = x
 	return t
 }
 
@@ -1996,7 +1997,8 @@ func (fr *Frame) atCallAsserts(c *ssa.CallCommon, callee *ssa.Function, args []V
 		}
 		var t *Term
 		if err := safeEval(func() { t = env.Bool(cl.Expr) }); err != nil {
-			panic(stopExec{fmt.Sprintf("%s: at %s: assert %q: %v", shortFuncName(fr.fn), cl.Names[0], cl.Src, err)})
+			x.noteStale(fmt.Sprintf("%s: at %s: assert %q: %v", shortFuncName(fr.fn), cl.Names[0], cl.Src, err))
+			continue
 		}
 		lbl := cl.Label
 		if lbl == "" {
